@@ -215,8 +215,11 @@ type cachedAgg struct {
 	tail, head time.Time
 }
 
+// Valid reports whether the cached series covers the written range [head, tail] (head = earliest,
+// tail = latest written bar). The cache spans c.tail (start of the cached window) to c.head (its end);
+// a range that merely overlaps the window must be re-queried.
 func (c *cachedAgg) Valid(tail, head time.Time) bool {
-	return tail.Unix() >= c.tail.Unix() && head.Unix() <= c.head.Unix()
+	return head.Unix() >= c.tail.Unix() && tail.Unix() <= c.head.Unix()
 }
 
 func (s *OnDiskAggTrigger) writeAggregates(
